@@ -40,7 +40,6 @@ func SpecNativeKeyIndex(cmd string) int {
 	return 0
 }
 
-
 func SpecReplyTruth(reply interface{}) bool { panic("abstract spec function") }
 
 //@ spec SpecReplyTruth abstract
@@ -130,7 +129,7 @@ func SpecReplyTruth(reply interface{}) bool { panic("abstract spec function") }
 //@   set nStrip = nStrip + 1 after call Replace
 //@   ensures every_chunk_of_a_value_is_addressed_to_the_stripped_key: rr.ReplaceHashTag ==> nStrip == old(nStrip) + 2
 //@   ensures an_ignored_value_is_remembered_for_its_other_chunks: probed == 1 && rr.KeyExists == "ignore" ==> skips(rr, e.Key)
-//@   ensures the_other_chunks_of_an_ignored_value_are_skipped: old(!rdb.SpecFirstBin(e) && rdb.SpecSplit(e.ObjectParser) && rdb.SpecObjType(e.ObjectParser) != rdb.RdbObjectFunction && rdb.SpecObjType(e.ObjectParser) != rdb.RdbObjectAux && rdb.SpecObjType(e.ObjectParser) != rdb.RdbObjectModule && skips(rr, e.Key)) ==> err == nil && expanded == old(expanded) && reqs == old(reqs)
+//@   ensures the_other_chunks_of_an_ignored_value_are_skipped: !rr.ReplaceHashTag && old(!rdb.SpecFirstBin(e) && rdb.SpecSplit(e.ObjectParser) && rdb.SpecObjType(e.ObjectParser) != rdb.RdbObjectFunction && rdb.SpecObjType(e.ObjectParser) != rdb.RdbObjectAux && rdb.SpecObjType(e.ObjectParser) != rdb.RdbObjectModule && skips(rr, e.Key)) ==> err == nil && expanded == old(expanded) && reqs == old(reqs)
 //@   assert at call Do: policy_requests_address_the_entrys_key: len(args) > 0 && (cmd == "exists" || cmd == "del" || cmd == "pexpire" || cmd == "restore") ==> args[0] == dyn(e.Key)
 //@   assert at call restoreBigRdbEntry: native_fallback_after_a_refused_replace_deletes_the_old_value_first: probed == 0 - 1 && reqs >= old(reqs) + 2 ==> nDel == old(nDel) + 1
 //   askedReplace  1 when the last RESTORE request carried REPLACE (whatever made it carry it)
